@@ -1,7 +1,7 @@
 SPECIFICATION Spec
 CONSTANTS
   Focus = {"a", "l"}
-  NDcf = 2
+  NDcf = 1
   MaxArgv = 1
   Emit = TRUE
 INVARIANT DocumentedOrder
